@@ -158,6 +158,42 @@ impl<T> M2Array<T> {
     }
 }
 
+/// Returns the number of bytes between the current position and the end of the stream
+///
+/// The position of the stream is left unchanged.
+pub fn remaining_bytes<R: Seek>(reader: &mut R) -> Result<u64> {
+    let pos = reader.stream_position()?;
+    let end = reader.seek(SeekFrom::End(0))?;
+    reader.seek(SeekFrom::Start(pos))?;
+    Ok(end.saturating_sub(pos))
+}
+
+/// Checks that `count` elements of `element_size` bytes each fit into the rest of the stream
+///
+/// Counts come straight from the file, so they have to be validated against the data that is
+/// actually there before they are used to size a buffer. Returns `count` as `usize`.
+pub fn check_count<R: Seek>(reader: &mut R, count: u64, element_size: usize) -> Result<usize> {
+    let remaining = remaining_bytes(reader)?;
+    match count.checked_mul(element_size as u64) {
+        Some(total) if total <= remaining => Ok(count as usize),
+        _ => Err(M2Error::ParseError(format!(
+            "{count} elements of {element_size} bytes do not fit into the remaining {remaining} bytes"
+        ))),
+    }
+}
+
+/// Reads `count` elements of `element_size` bytes each as raw bytes from the current position
+pub fn read_bytes_checked<R: Read + Seek>(
+    reader: &mut R,
+    count: u64,
+    element_size: usize,
+) -> Result<Vec<u8>> {
+    let count = check_count(reader, count, element_size)?;
+    let mut data = vec![0u8; count * element_size];
+    reader.read_exact(&mut data).map_err(M2Error::Io)?;
+    Ok(data)
+}
+
 /// Reads data at an array reference location
 pub fn read_array<T, R, F>(reader: &mut R, array: &M2Array<T>, parse_fn: F) -> Result<Vec<T>>
 where
@@ -173,8 +209,14 @@ where
         .seek(std::io::SeekFrom::Start(array.offset as u64))
         .map_err(M2Error::Io)?;
 
+    // Every element takes at least one byte in the file; the on-disk element size is not
+    // known here, so only reserve what the rest of the stream could hold
+    let count = check_count(reader, array.count as u64, 1)?;
+    let remaining = remaining_bytes(reader)? as usize;
+    let capacity = count.min(remaining / std::mem::size_of::<T>().max(1));
+
     // Read each element
-    let mut result = Vec::with_capacity(array.count as usize);
+    let mut result = Vec::with_capacity(capacity);
     for _ in 0..array.count {
         result.push(parse_fn(reader)?);
     }
@@ -198,11 +240,7 @@ pub fn read_raw_bytes<R: Read + Seek>(
         .map_err(M2Error::Io)?;
 
     // Read raw bytes
-    let total_bytes = array.count as usize * element_size;
-    let mut data = vec![0u8; total_bytes];
-    reader.read_exact(&mut data).map_err(M2Error::Io)?;
-
-    Ok(data)
+    read_bytes_checked(reader, array.count as u64, element_size)
 }
 
 /// A vector in 3D space
@@ -320,8 +358,7 @@ impl FixedString {
 
     /// Parse a fixed-width string from a reader
     pub fn parse<R: Read + Seek>(reader: &mut R, len: usize) -> Result<Self> {
-        let mut data = vec![0u8; len];
-        reader.read_exact(&mut data)?;
+        let mut data = read_bytes_checked(reader, len as u64, 1)?;
 
         // Find null terminator
         let null_pos = data.iter().position(|&b| b == 0).unwrap_or(len);
